@@ -470,6 +470,9 @@ func pureStable(v ssa.Value, d int) bool {
 		if b, ok := x.Call.Value.(*ssa.Builtin); ok && (b.Name() == "len" || b.Name() == "cap") {
 			return pureStable(x.Call.Args[0], d+1)
 		}
+		return true // a register: one value per dynamic instance; PathOf names it by its unique register
+	case *ssa.Phi, *ssa.Extract, *ssa.Lookup, *ssa.TypeAssert, *ssa.MakeSlice, *ssa.MakeChan, *ssa.MakeMap:
+		return true
 	}
 	return false
 }
